@@ -276,7 +276,25 @@ func (t *Tracker) Tainted(k string) bool {
 					best = tb.seq[k]
 				}
 			}
-			return best < t.newest[k]
+			if best >= t.newest[k] {
+				return false
+			}
+			// The newest copy is somewhere else.  The listed inversions keep it in the SAME
+			// level (partial drain: main run vs ingest buffer) or are not understood (maybe
+			// copies).  A newest copy that sits, for sure, in a DEEPER level while an older one
+			// is served from a shallower level is no listed finding: such a read is judged.
+			deeper, elsewhere := false, false
+			for _, tb := range t.tabs {
+				if _, has := tb.keys[k]; !has || tb.seq[k] != t.newest[k] {
+					continue
+				}
+				if tb.keys[k] && tb.level > p.level {
+					deeper = true
+				} else {
+					elsewhere = true
+				}
+			}
+			return !deeper || elsewhere
 		}
 	}
 	return false
